@@ -106,6 +106,24 @@ NbSamplesOf(p, Fs) ==       \* opus_packet_get_nb_samples
   ELSE LET s == c * SamplesPerFrame(Byte(p, 1), Fs) IN
        IF s * 25 > Fs * 3 THEN INVALID_PACKET ELSE s
 
+\* opus_packet_has_lbrr: the LBRR flag(s) in the speech-layer header of the first frame
+\* (RFC 6716 section 4.2.3/4.2.4): per channel, one VAD bit per 20 ms speech frame then one LBRR bit;
+\* the mid channel comes first, the side channel (stereo) follows.  MDCT-only packets have none.
+BitOf(x, k) == (x \div (2 ^ k)) % 2
+SilkFramesPerFrame(toc) == IF Dur48(toc) > 960 THEN Dur48(toc) \div 960 ELSE 1
+HasLbrrOf(p) ==
+  IF p.len < 1 THEN BAD_ARG
+  ELSE LET toc == Byte(p, 1) IN
+       IF TocMode(toc) = MODE_CELT THEN 0
+       ELSE LET r == Parse(p, FALSE) IN
+            IF ~r.ok THEN INVALID_PACKET
+            ELSE IF r.sizes[1] = 0 THEN 0
+            ELSE LET b == Byte(p, r.off + 1)
+                     nf == SilkFramesPerFrame(toc)
+                     mid == BitOf(b, 7 - nf)
+                     side == IF TocStereo(toc) THEN BitOf(b, 6 - 2 * nf) ELSE 0
+                 IN IF mid = 1 \/ side = 1 THEN 1 ELSE 0
+
 (* Frame length coding (section 3.2.1), used by the packet writers.        *)
 EncSize(s) == IF s < 252 THEN <<s>> ELSE <<252 + (s % 4), (s - (252 + (s % 4))) \div 4>>
 
